@@ -8,6 +8,7 @@ from ..tables import EAGER_CONSUMERS
 from ..util import (is_name, calls_in, callee_qual, deref, ancestors, stmt_of, parent, handler_outcomes,
                     handler_covers, evaluator_calls, raised_class, is_subclass)
 from .common import option_usage
+from ..pattern import match, matches
 
 info('C15',
      explanation='Static decision of: accumulator provenance (the first argument of every op(...) call in the '
@@ -201,27 +202,43 @@ def options(ctx):
     ctx.floor(4)
 
 
+def _kw_pops(u):
+    """local name -> (keyword, default expr) for ``x = kwargs.pop('k', d)``"""
+    out = {}
+    for n in u.own_nodes():
+        if isinstance(n, ast.Assign) and is_name(n.targets[0]):
+            b = match(n.value, "%s.pop($$k, $$d)" % u.kwarg) if u.kwarg else None
+            if b and isinstance(b['k'], ast.Constant):
+                out[b['k'].value] = (n.targets[0].id, b['d'])
+    return out
+
+
 @rule('C15.6')
 def helpers(ctx):
     p = ctx.program
     u = ctx.unit('reduction.flatten')
-    # levels
-    z = [n for n in u.node.body if isinstance(n, ast.If) and norm(n.test) == 'levels == 0']
+    kw = _kw_pops(u)
+    ctx.require({'spec', 'init', 'levels'} <= set(kw), 'flatten(): keyword options not found: %s' % sorted(kw))
+    subv, initv, levv = kw['spec'][0], kw['init'][0], kw['levels'][0]
+    ctx.ob(norm(kw['levels'][1]) == '1' and norm(kw['init'][1]) == 'list' and norm(kw['spec'][1]) == 'T', u,
+           'defaults: spec=T, init=list, levels=1')
+    z = [n for n in u.node.body if isinstance(n, ast.If) and matches(n.test, '%s == 0' % levv)]
     ctx.ob(len(z) == 1 and isinstance(z[0].body[0], ast.Return) and is_name(z[0].body[0].value, u.params[0]), u, 'levels=0 returns the target itself')
-    neg = [n for n in u.node.body if isinstance(n, ast.If) and norm(n.test) == 'levels < 0']
+    neg = [n for n in u.node.body if isinstance(n, ast.If) and matches(n.test, '%s < 0' % levv)]
     ctx.ob(len(neg) == 1 and isinstance(neg[0].body[0], ast.Raise), u, 'negative levels are refused')
     # spec = (subspec,) + (Flatten(init='lazy'),) * (levels - 1) + (Flatten(init=init),)
-    total = (0, 0)
+    r = [n for n in u.node.body if isinstance(n, ast.Return) and isinstance(n.value, ast.Call) and callee_qual(p, u, n.value) == 'core.glom']
+    ctx.require(len(r) == 1 and is_name(r[0].value.args[1]), 'flatten(): final glom(target, spec) not found')
+    specv = r[0].value.args[1].id
     parts = []
     for n in u.node.body:
-        if isinstance(n, (ast.Assign, ast.AugAssign)) and is_name(n.targets[0] if isinstance(n, ast.Assign) else n.target, 'spec'):
+        if isinstance(n, (ast.Assign, ast.AugAssign)) and is_name(n.targets[0] if isinstance(n, ast.Assign) else n.target, specv):
             parts.append(n.value)
-    n_flat = None
     try:
         cnt = (0, 0)
         for v in parts:
             if isinstance(v, ast.BinOp) and isinstance(v.op, ast.Mult) and isinstance(v.left, ast.Tuple):
-                k = linear(v.right, {'levels': (1, 0)})
+                k = linear(v.right, {levv: (1, 0)})
                 f = sum(1 for e in v.left.elts if isinstance(e, ast.Call) and callee_qual(p, u, e) == 'reduction.Flatten')
                 cnt = (cnt[0] + k[0] * f, cnt[1] + k[1] * f)
             elif isinstance(v, ast.Tuple):
@@ -231,24 +248,25 @@ def helpers(ctx):
     except NotAffine:
         n_flat = None
     ctx.ob(n_flat == (1, 0), u, 'flatten(levels=n) chains exactly n Flatten steps', 'counted %s*levels + %s' % (n_flat or ('?', '?')))
-    ok = len(parts) >= 1 and isinstance(parts[0], ast.Tuple) and len(parts[0].elts) == 1 and is_name(parts[0].elts[0], 'subspec')
-    ctx.ob(ok, u, 'the chain starts with the caller\'s spec')
+    ok = len(parts) >= 1 and isinstance(parts[0], ast.Tuple) and len(parts[0].elts) == 1 and is_name(parts[0].elts[0], subv)
+    ctx.ob(ok, u, "the chain starts with the caller's spec")
     fl = [c for c in calls_in(u) if callee_qual(p, u, c) == 'reduction.Flatten']
     inits = sorted(norm(k.value) for c in fl for k in c.keywords if k.arg == 'init')
-    ctx.ob(inits == ["'lazy'", 'init'], u, 'inner levels are lazy, the last level builds the caller\'s init type: %s' % inits)
+    ctx.ob(inits == sorted(["'lazy'", initv]), u, "inner levels are lazy, the last level builds the caller's init type: %s" % inits)
     last = parts[-1] if parts else None
     ok = isinstance(last, ast.Tuple) and len(last.elts) == 1 and isinstance(last.elts[0], ast.Call) and \
-        any(k.arg == 'init' and is_name(k.value, 'init') for k in last.elts[0].keywords)
+        any(k.arg == 'init' and is_name(k.value, initv) for k in last.elts[0].keywords)
     ctx.ob(ok, u, 'the eager level comes last')
-    r = [n for n in u.node.body if isinstance(n, ast.Return)]
-    ok = len(r) == 1 and isinstance(r[0].value, ast.Call) and callee_qual(p, u, r[0].value) == 'core.glom' \
-        and is_name(r[0].value.args[0], u.params[0]) and is_name(r[0].value.args[1], 'spec')
-    ctx.ob(ok, u, 'and is evaluated on the target: %s' % [norm(x) for x in r])
+    ctx.ob(is_name(r[0].value.args[0], u.params[0]), u, 'and is evaluated on the target: %s' % [norm(x) for x in r])
     # merge()
     u = ctx.unit('reduction.merge')
+    kw = _kw_pops(u)
     r = [n for n in u.node.body if isinstance(n, ast.Return)]
-    sp = [n for n in u.node.body if isinstance(n, ast.Assign) and is_name(n.targets[0], 'spec')]
-    ok = len(sp) == 1 and norm(sp[0].value) == 'Merge(subspec, init, op)' and len(r) == 1 and norm(r[0].value) == 'glom(%s, spec)' % u.params[0]
+    ok = {'spec', 'init', 'op'} <= set(kw) and len(r) == 1 and isinstance(r[0].value, ast.Call) and callee_qual(p, u, r[0].value) == 'core.glom'
+    if ok:
+        sp = deref(ctx.cfg(u), ctx.cfg(u).node_of(r[0]), r[0].value.args[1])
+        ok = is_name(r[0].value.args[0], u.params[0]) and isinstance(sp, ast.Call) and callee_qual(p, u, sp) == 'reduction.Merge' \
+            and [a.id if isinstance(a, ast.Name) else None for a in sp.args] == [kw['spec'][0], kw['init'][0], kw['op'][0]]
     ctx.ob(ok, u, 'merge() is glom(target, Merge(spec, init, op))')
     # Sum / Count / Merge constructor arguments
     su = ctx.unit('reduction.Sum.__init__')
@@ -266,8 +284,11 @@ def helpers(ctx):
     ctx.ob(kw == {'subspec': 'subspec', 'init': 'init', 'op': 'operator.iadd'}, fu, 'Flatten folds with += : %s' % kw)
     mu = ctx.unit('reduction.Merge.__init__')
     ga = [x for x in calls_in(mu) if is_name(x.func, 'getattr')]
-    ok = len(ga) == 1 and norm(ga[0]) == 'getattr(type(test_init), op, None)'
-    ctx.ob(ok, mu, 'a named op is looked up on the init type: %s' % [norm(g) for g in ga])
+    ok = len(ga) == 1 and matches(ga[0], 'getattr(type($t), op, None)')
+    if ok:
+        tv = match(ga[0], 'getattr(type($t), op, None)')['t']
+        ok = any(matches(n, '%s = init()' % tv) for n in mu.own_nodes() if isinstance(n, ast.Assign))
+    ctx.ob(ok, mu, 'a named op is looked up on the type of init(): %s' % [norm(g) for g in ga])
     d = [n for n in mu.own_nodes() if isinstance(n, ast.If) and norm(n.test) == 'op is None']
     ok = len(d) == 1 and norm(d[0].body[0]) == "op = 'update'"
     ctx.ob(ok, mu, 'the default op is update')
@@ -292,7 +313,11 @@ def wiring(ctx):
     ok = len(gh) == 1 and gh[0].args[0].value == 'iterate' and is_name(gh[0].args[1], tu.params[0])
     ctx.ob(ok, tu, "iteration uses the target's registered 'iterate' handler")
     r = [n for n in tu.node.body if isinstance(n, ast.Return)]
-    st = [n for n in tu.own_nodes() if isinstance(n, ast.Assign) and isinstance(n.value, ast.Call) and is_name(n.value.func, 'iterate')]
+    hv = None
+    for n in tu.own_nodes():
+        if isinstance(n, ast.Assign) and is_name(n.targets[0]) and gh and n.value is gh[0]:
+            hv = n.targets[0].id
+    st = [n for n in tu.own_nodes() if isinstance(n, ast.Assign) and isinstance(n.value, ast.Call) and is_name(n.value.func, hv)]
     ok = len(r) == 1 and len(st) == 1 and is_name(r[0].value, st[0].targets[0].id) and is_name(st[0].value.args[0], tu.params[0])
     ctx.ob(ok, tu, 'and returns iterate(target) itself (no materialisation)')
     ctx.floor(5)
